@@ -45,12 +45,13 @@ theorem tmpLike_ct (N : Nat) {d : DCt} {b r : Nat} {H : Int} (hd : GB N b r H d.
   rfl
 
 /-- what one term of an accumulation does: run on a scratch ciphertext with the accumulator's layout, if the metadata model returns
-`Ok mt` the data returns a well-formed `tmp` with that metadata, budget at most `β0`, decoding to `V` within `U` units -/
-def TermSpec (env : Env) (N r sz : Nat) (β0 : Nat) (t : DCt → Outcome DCt) (tm : Ct → Res Ct) (V : List Poly → Nat → ℚ)
-    (U : List Poly → ℚ) : Prop :=
+`Ok mt` the data returns a well-formed `tmp` with that metadata, budget at most `β0`, decoding — for the secrets `Sok` selects (all of
+them, or those for which the operands are tracked) — to `V` within `E` -/
+def TermSpec (env : Env) (N r sz : Nat) (β0 : Nat) (Sok : List Poly → Prop) (t : DCt → Outcome DCt) (tm : Ct → Res Ct)
+    (V : List Poly → Nat → ℚ) (E : List Poly → ℚ) : Prop :=
   ∀ d : DCt, GB N env.base2k r 0 d.g → d.g.size = sz → ∀ mt, tm d.ct = .ok mt →
     ∃ tmp, t d = .ok tmp ∧ tmp.ct = mt ∧ DOK env N r tmp ∧ tmp.g.size = d.g.size ∧ tmp.md.logBudget ≤ β0 ∧
-      ∀ s t', t' < N → Near (decC s tmp t') (V s t') (wrap tmp) (U s * ulp tmp)
+      ∀ s, Sok s → ∀ t', t' < N → Near (decC s tmp t') (V s t') (wrap tmp) (E s)
 
 /-- the data fold of `accumulate_unnormalized` -/
 def accFold (env : Env) (N : Nat) (r : Outcome DCt) (terms : List (DCt → Outcome DCt)) : Outcome DCt :=
@@ -77,22 +78,22 @@ theorem accumulate_not_ok (env : Env) (tms : List (Ct → Res Ct)) {r : Res Ct} 
     | panic p => simp [accStep, Res.bind]
 
 /-- **`accumulate_unnormalized`**: the chain of "product into a temporary, `add_assign_unsafe`" -/
-theorem accFold_sem {env : Env} (he : EnvOK env) {N r : Nat} (β0 : Nat)
+theorem accFold_sem {env : Env} (he : EnvOK env) {N r : Nat} (β0 : Nat) (Sok : List Poly → Prop)
     (terms : List ((DCt → Outcome DCt) × (Ct → Res Ct) × (List Poly → Nat → ℚ) × (List Poly → ℚ)))
-    {sz : Nat} (hts : ∀ x ∈ terms, TermSpec env N r sz β0 x.1 x.2.1 x.2.2.1 x.2.2.2) (hU : ∀ x ∈ terms, ∀ s, 0 ≤ x.2.2.2 s)
+    {sz : Nat} (hts : ∀ x ∈ terms, TermSpec env N r sz β0 Sok x.1 x.2.1 x.2.2.1 x.2.2.2)
     {d0 : DCt} {H0 : Int} (hHh : half env.base2k ≤ H0) (hH : H0 + terms.length * half env.base2k ≤ 2 ^ 62)
     (hd : GB N env.base2k r H0 d0.g) (hsz0 : d0.g.size = sz) (hβd : d0.md.logBudget ≤ β0) {mfin : Ct}
     (hm : (terms.map (fun x => x.2.1)).foldl (accStep env) (.ok d0.ct) = .ok mfin) :
     ∃ dfin, accFold env N (.ok d0) (terms.map (fun x => x.1)) = .ok dfin ∧ dfin.ct = mfin ∧
       GB N env.base2k r (H0 + terms.length * half env.base2k) dfin.g ∧
       dfin.g.size = d0.g.size ∧ dfin.md.logBudget ≤ d0.md.logBudget ∧
-      ∀ s t, t < N → Near (decC s dfin t) (decC s d0 t + (terms.map (fun x => x.2.2.1 s t)).sum) (wrap dfin)
-        ((terms.map (fun x => (x.2.2.2 s + sn r s) * (2 ^ β0 / 2 ^ (env.base2k * d0.g.size)))).sum) := by
+      ∀ s, Sok s → ∀ t, t < N → Near (decC s dfin t) (decC s d0 t + (terms.map (fun x => x.2.2.1 s t)).sum) (wrap dfin)
+        ((terms.map (fun x => x.2.2.2 s + sn r s * (2 ^ β0 / 2 ^ (env.base2k * d0.g.size)))).sum) := by
   induction terms generalizing d0 H0 with
   | nil =>
     simp only [List.map_nil, List.foldl_nil] at hm
     injection hm with hm
-    refine ⟨d0, rfl, hm, by simpa using hd, rfl, le_refl _, fun s t _ => ?_⟩
+    refine ⟨d0, rfl, hm, by simpa using hd, rfl, le_refl _, fun s _ t _ => ?_⟩
     simpa using Near.refl (decC s d0 t) (wrap d0)
   | cons x xs ih =>
     obtain ⟨tf, tm, V, U⟩ := x
@@ -107,8 +108,7 @@ theorem accFold_sem {env : Env} (he : EnvOK env) {N r : Nat} (β0 : Nat)
     | ok mt =>
       obtain ⟨tmp, et, hct, hok, htsz', hβt, hvt⟩ := hspec (tmpLike N d0) htg (by rw [htsz]; exact hsz0) mt (by rw [tmpLike_ct N hd]; exact h0)
       have et' : tf (tmpLike N d0) = .ok tmp := et
-      have hvt' : ∀ s t', t' < N → Near (decC s tmp t') (V s t') (wrap tmp) (U s * ulp tmp) := hvt
-      have hU0 : ∀ s, 0 ≤ U s := hU (tf, tm, V, U) (by simp)
+      have hvt' : ∀ s, Sok s → ∀ t', t' < N → Near (decC s tmp t') (V s t') (wrap tmp) (U s) := hvt
       cases h1 : addCtAssign env d0.ct mt with
       | ok m1 =>
         have hstep : accStep env (.ok d0.ct) tm = .ok m1 := by simp only [accStep, Res.bind, h0, h1]
@@ -118,9 +118,9 @@ theorem accFold_sem {env : Env} (he : EnvOK env) {N r : Nat} (β0 : Nat)
         obtain ⟨hsz1, hb1⟩ := addCtAssign_shape h1'
         have hct1 : (⟨g1, m1.md⟩ : DCt).ct = m1 := ct_eq (by rw [hsz1, sz1]; rfl)
         have hβ1 : m1.md.logBudget ≤ d0.md.logBudget := by rw [hb1]; exact Nat.min_le_left _ _
-        obtain ⟨dfin, e2, hctf, hgb, hsz, hbud, hv⟩ := ih (fun y hy => hts y (by simp [hy])) (fun y hy => hU y (by simp [hy])) (d0 := ⟨g1, m1.md⟩) (H0 := H0 + half env.base2k)
+        obtain ⟨dfin, e2, hctf, hgb, hsz, hbud, hv⟩ := ih (fun y hy => hts y (by simp [hy])) (d0 := ⟨g1, m1.md⟩) (H0 := H0 + half env.base2k)
           (by linarith) (by linarith) hg1 (by rw [← hsz0]; exact sz1) (le_trans hβ1 hβd) (by rw [hct1]; exact hm)
-        refine ⟨dfin, ?_, hctf, hgb.mono (by linarith), by rw [hsz]; exact sz1, le_trans hbud hβ1, fun s t ht => ?_⟩
+        refine ⟨dfin, ?_, hctf, hgb.mono (by linarith), by rw [hsz]; exact sz1, le_trans hbud hβ1, fun s hs t ht => ?_⟩
         · simp only [accFold, List.map_cons, List.foldl_cons]
           have : (Core.Ops.bind (Outcome.ok d0) fun d =>
               Core.Ops.bind (tf (tmpLike N d)) fun tmp =>
@@ -131,18 +131,18 @@ theorem accFold_sem {env : Env} (he : EnvOK env) {N r : Nat} (β0 : Nat)
             simp only [Core.Ops.bind, et', e1, h1']
           rw [this]
           exact e2
-        · have a1 := hv s t ht
+        · have a1 := hv s hs t ht
           have a2 := hv1 s t ht
-          have a3 := hvt' s t ht
+          have a3 := hvt' s hs t ht
           have hσ : 0 ≤ sn r s := le_trans zero_le_one (sn_pos r s)
           have hβm : m1.md.logBudget ≤ tmp.md.logBudget := by rw [hb1]; exact Nat.min_le_right _ _
           -- decC d1 ≈ decC d0 + decC tmp ≈ decC d0 + V
-          have a3' : Near (decC s d0 t + decC s tmp t) (decC s d0 t + V s t) (2 ^ m1.md.logBudget) (0 + U s * ulp tmp) := by
+          have a3' : Near (decC s d0 t + decC s tmp t) (decC s d0 t + V s t) (2 ^ m1.md.logBudget) (0 + U s) := by
             have := (a3.scale (dvd_one (β := tmp.md.logBudget) (β' := m1.md.logBudget) hβm))
             simp only [one_mul, abs_one] at this
             exact (Near.refl (decC s d0 t) _).add this
           have a4 : Near (decC s ⟨g1, m1.md⟩ t) (decC s d0 t + V s t) (2 ^ m1.md.logBudget)
-              (sn r s * ulpG g1 m1.md.logBudget + (0 + U s * ulp tmp)) := a2.trans a3'
+              (sn r s * ulpG g1 m1.md.logBudget + (0 + U s)) := a2.trans a3'
           have a5 := (a4.scale (dvd_one (β := m1.md.logBudget) (β' := dfin.md.logBudget) hbud)).add
             (Near.refl ((xs.map (fun x => x.2.2.1 s t)).sum) (2 ^ dfin.md.logBudget))
           simp only [one_mul, abs_one] at a5
@@ -151,22 +151,16 @@ theorem accFold_sem {env : Env} (he : EnvOK env) {N r : Nat} (β0 : Nat)
             unfold ulpG; rw [hg1.bk, sz1]
             apply div_le_div_of_nonneg_right _ (by positivity)
             exact pow_le_pow_right₀ (by norm_num) (le_trans hβ1 hβd)
-          have hu2 : ulp tmp ≤ top := by
-            unfold ulp ulpG
-            rw [hok.bk, htsz', htsz]
-            apply div_le_div_of_nonneg_right _ (by positivity)
-            exact pow_le_pow_right₀ (by norm_num) hβt
           have a1' : Near (decC s dfin t) (decC s ⟨g1, m1.md⟩ t + (xs.map (fun x => x.2.2.1 s t)).sum) (2 ^ dfin.md.logBudget)
-              ((xs.map (fun x => (x.2.2.2 s + sn r s) * top)).sum) := by
+              ((xs.map (fun x => x.2.2.2 s + sn r s * top)).sum) := by
             have := a1
             simp only [wrap] at this
             rw [show (⟨g1, m1.md⟩ : DCt).g.size = d0.g.size from sz1] at this
             exact this
-          have := (a1'.trans a5).mono (show (xs.map (fun x => (x.2.2.2 s + sn r s) * top)).sum
-              + (sn r s * ulpG g1 m1.md.logBudget + (0 + U s * ulp tmp) + 0)
-              ≤ (U s + sn r s) * top + (xs.map (fun x => (x.2.2.2 s + sn r s) * top)).sum by
+          have := (a1'.trans a5).mono (show (xs.map (fun x => x.2.2.2 s + sn r s * top)).sum
+              + (sn r s * ulpG g1 m1.md.logBudget + (0 + U s) + 0)
+              ≤ (U s + sn r s * top) + (xs.map (fun x => x.2.2.2 s + sn r s * top)).sum by
             have h1 : sn r s * ulpG g1 m1.md.logBudget ≤ sn r s * top := mul_le_mul_of_nonneg_left hu1 hσ
-            have h2 : U s * ulp tmp ≤ U s * top := mul_le_mul_of_nonneg_left hu2 (hU0 s)
             linarith)
           simp only [List.map_cons, List.sum_cons, wrap]
           rw [show decC s d0 t + (V s t + (xs.map (fun x => x.2.2.1 s t)).sum)
@@ -213,6 +207,50 @@ theorem zip_map_fst_snd {α β : Type} (l : List (α × β)) : (l.map Prod.fst).
 def dotPtTerm (env : Env) (N : Nat) (pt : Pt) (s : List Poly) (ap : DCt × Col) (t : Nat) : ℚ :=
   (qNegMul (decPG s N (Mask.masked N env.base2k ap.1.md.effK ap.1.g) ap.1.md.logBudget) (ptMsg env N pt ap.2)).getD t 0
 
+/-- **`accumulate_unnormalized` followed by the final normalisation** (`dAccumulate`): `d0` is the first product (already in the
+destination), every term is added un-normalised, one `glwe_normalize_assign` at the end (none when there is no further term). -/
+theorem dAccumulate_sem {env : Env} (he : EnvOK env) {N r : Nat} (β0 : Nat) (Sok : List Poly → Prop)
+    (terms : List ((DCt → Outcome DCt) × (Ct → Res Ct) × (List Poly → Nat → ℚ) × (List Poly → ℚ)))
+    {sz : Nat} (hts : ∀ x ∈ terms, TermSpec env N r sz β0 Sok x.1 x.2.1 x.2.2.1 x.2.2.2)
+    {d0 : DCt} (hd : DOK env N r d0) (hsz0 : d0.g.size = sz) (hβd : d0.md.logBudget ≤ β0)
+    (hfit : ((terms.length : Int) + 1) * half env.base2k ≤ 2 ^ 62) {first : Outcome DCt} (hfirst : first = .ok d0) {mfin : Ct}
+    (hm : (terms.map (fun x => x.2.1)).foldl (accStep env) (.ok d0.ct) = .ok mfin) :
+    ∃ c', dAccumulate env N first (terms.map (fun x => x.1)) = .ok c' ∧ c'.ct = mfin ∧ DOK env N r c' ∧
+      c'.g.size = d0.g.size ∧ c'.md.logBudget ≤ d0.md.logBudget ∧
+      ∀ s, Sok s → ∀ t, t < N → Near (decC s c' t) (decC s d0 t + (terms.map (fun x => x.2.2.1 s t)).sum) (wrap c')
+        ((terms.map (fun x => x.2.2.2 s + sn r s * (2 ^ β0 / 2 ^ (env.base2k * d0.g.size)))).sum) := by
+  subst hfirst
+  have hh0 := half_nonneg env.base2k
+  obtain ⟨dfin, e2, hctf, hgb, hszf, hbud, hv⟩ := accFold_sem he β0 Sok terms hts (d0 := d0) (H0 := half env.base2k)
+    (le_refl _) (by linarith) hd hsz0 hβd hm
+  by_cases hre : terms = []
+  · subst hre
+    have e2' : dfin = d0 := by
+      have := e2
+      simp only [accFold, List.map_nil, List.foldl_nil] at this
+      injection this with this
+      exact this.symm
+    subst e2'
+    refine ⟨dfin, ?_, hctf, hd, rfl, le_refl _, hv⟩
+    simp only [dAccumulate, List.map_nil, List.isEmpty_nil, if_true]
+  · obtain ⟨g', e3, hg, sz', hvn⟩ := normalize_assign_stepH he.lo he.hi (by positivity) (by linarith) hgb dfin.md.logBudget
+    refine ⟨⟨g', dfin.md⟩, ?_, ?_, hg, by rw [← hszf]; exact sz', hbud, fun s hs t ht => ?_⟩
+    · have hne : (terms.map (fun x => x.1)).isEmpty = false := by
+        cases terms with
+        | nil => exact absurd rfl hre
+        | cons _ _ => rfl
+      have hfold : accFold env N (.ok d0) (terms.map (fun x => x.1)) = .ok dfin := e2
+      show (if (terms.map (fun x => x.1)).isEmpty then _
+        else Core.Ops.bind (accFold env N (.ok d0) (terms.map (fun x => x.1)))
+          (fun d => Core.Ops.bind (glweNormalizeAssign N d.g) fun g' => .ok (⟨g', d.md⟩ : DCt))) = _
+      rw [hne, hfold]
+      simp only [Bool.false_eq_true, if_false, Core.Ops.bind, e3]
+    · rw [← hctf]; simp only [DCt.ct, sz']
+    · have a1 := hvn s t ht
+      have a2 := hv s hs t ht
+      have := a1.trans a2
+      simpa [decC, wrap] using this
+
 /-- the plaintext product as a term of an accumulation -/
 theorem mulPt_termSpec {env : Env} {N r : Nat} (hN : 0 < N) (big : Bool) {a : DCt} {pt : Pt} {pg : Col} (sz β0 : Nat)
     (ha : Mask.MaskAdm N env.base2k r a.md.effK a.g) (hp : PtOK env N pt pg) {c0 : Ct} (hbld : ptBuild env pt c0 = none)
@@ -220,8 +258,8 @@ theorem mulPt_termSpec {env : Env} {N r : Nat} (hN : 0 < N) (big : Bool) {a : DC
       (cnvOffsetSplit env.base2k q.cnv).1 ≤ divCeil a.md.effK env.base2k + pt.size - 1)
     (hroom : (pt.size : Int) * (N * 2 ^ env.base2k * 2 ^ env.base2k) + 8 ≤ 2 ^ (bitsOf big - 2))
     (hβ : a.md.logBudget ≤ β0) :
-    TermSpec env N r sz β0 (fun d => dMulPtInto env N big d a pt pg) (fun c => mulPtZnxInto env c a.ct pt)
-      (fun s t => dotPtTerm env N pt s (a, pg) t) (fun s => sn r s) := by
+    TermSpec env N r sz β0 (fun _ => True) (fun d => dMulPtInto env N big d a pt pg) (fun c => mulPtZnxInto env c a.ct pt)
+      (fun s t => dotPtTerm env N pt s (a, pg) t) (fun s => sn r s * (2 ^ β0 / 2 ^ (env.base2k * sz))) := by
   intro d hd hsz mt hmt
   have hm : withPt env pt d.ct (mulPtZnxInto env d.ct a.ct pt) = .ok mt := by
     rw [withPt_none (ptBuild_irrel hbld)]; exact hmt
@@ -235,12 +273,19 @@ theorem mulPt_termSpec {env : Env} {N r : Nat} (hN : 0 < N) (big : Bool) {a : DC
     have := congrArg Ct.size hct
     simp only [DCt.ct] at this
     rw [this, hmq]; rfl
-  refine ⟨c', hok, hct, hdok, hsize, ?_, fun s t ht => hv s t ht⟩
-  rw [hmd]
-  have := mulPt_budget hq
-  simp only [DCt.ct] at this
-  show q.budget ≤ β0
-  omega
+  have hbud : c'.md.logBudget ≤ β0 := by
+    rw [hmd]
+    have := mulPt_budget hq
+    simp only [DCt.ct] at this
+    show q.budget ≤ β0
+    omega
+  refine ⟨c', hok, hct, hdok, hsize, hbud, fun s _ t ht => (hv s t ht).mono ?_⟩
+  have hσ : 0 ≤ sn r s := le_trans zero_le_one (sn_pos r s)
+  apply mul_le_mul_of_nonneg_left _ hσ
+  unfold ulp ulpG
+  rw [hdok.bk, hsize, hsz]
+  apply div_le_div_of_nonneg_right _ (by positivity)
+  exact pow_le_pow_right₀ (by norm_num) hbud
 
 /-- **`ckks_dot_product_pt_vec_znx`, no contract.**  The result decodes to the sum over the terms of (masked operand) ⋆ (plaintext
 message), modulo `2^log_budget`, within `2n·(1 + Σ‖sᵢ‖₁)` units of the last limb at the largest operand budget `β0`; balanced digits.
@@ -288,31 +333,27 @@ theorem dDotPt_sem {env : Env} (he : EnvOK env) {N r : Nat} (hN : 0 < N) {big : 
           simp only [DCt.ct] at *
           show q0.budget ≤ β0
           omega
+        set top : ℚ := 2 ^ β0 / 2 ^ (env.base2k * dst.g.size) with htop
         -- the terms
         let terms : List ((DCt → Outcome DCt) × (Ct → Res Ct) × (List Poly → Nat → ℚ) × (List Poly → ℚ)) :=
           rest.map (fun ap => ((fun d => dMulPtInto env N big d ap.1 pt ap.2), (fun c => mulPtZnxInto env c ap.1.ct pt),
-            (fun s t => dotPtTerm env N pt s ap t), (fun s => sn r s)))
-        have hts : ∀ x ∈ terms, TermSpec env N r dst.g.size β0 x.1 x.2.1 x.2.2.1 x.2.2.2 := by
+            (fun s t => dotPtTerm env N pt s ap t), (fun s => sn r s * top)))
+        have hts : ∀ x ∈ terms, TermSpec env N r dst.g.size β0 (fun _ => True) x.1 x.2.1 x.2.2.1 x.2.2.2 := by
           intro x hx
           obtain ⟨ap, hap, rfl⟩ := List.mem_map.mp hx
           obtain ⟨h1, h2⟩ := hadm ap (by simp [hap])
           exact mulPt_termSpec hN big dst.g.size β0 h1 h2 hbld (hhi ap (by simp [hap])) hroom (hβ0 ap (by simp [hap]))
-        have hUs : ∀ x ∈ terms, ∀ s, 0 ≤ x.2.2.2 s := by
-          intro x hx s
-          obtain ⟨ap, _, rfl⟩ := List.mem_map.mp hx
-          exact hσ s
         have hlen : terms.length = rest.length := by simp [terms]
         have hbound := accFits_bound hfit he.lo
         push_cast at hbound
-        have hh0 := half_nonneg env.base2k
         have hmeta : (terms.map (fun x => x.2.1)).foldl (accStep env) (.ok d0.ct) = .ok m := by
           rw [hct0]
           have : terms.map (fun x => x.2.1) = (rest.map (fun ap => ap.1.ct)).map (fun a => fun t => mulPtZnxInto env t a pt) := by
             simp [terms, List.map_map, Function.comp_def]
           rw [this]
           exact hal
-        obtain ⟨dfin, e2, hctf, hgb, hszf, hbud, hv⟩ := accFold_sem he β0 terms hts hUs (d0 := d0) (H0 := half env.base2k)
-          (le_refl _) (by rw [hlen]; linarith) hok0 hsz0 hβd0 hmeta
+        obtain ⟨c', e2, hctf, hokf, _, hbud, hv⟩ := dAccumulate_sem he β0 (fun _ => True) terms hts hok0 hsz0 hβd0
+          (by rw [hlen]; linarith) e0.symm.symm hmeta
         have hzip : (((a0, p0) :: rest).map Prod.fst).zip (((a0, p0) :: rest).map Prod.snd) = (a0, p0) :: rest := zip_map_fst_snd _
         have hmodel : dDotPt env N big dst (((a0, p0) :: rest).map Prod.fst) pt (((a0, p0) :: rest).map Prod.snd)
             = dAccumulate env N (dMulPtInto env N big dst a0 pt p0)
@@ -322,70 +363,31 @@ theorem dDotPt_sem {env : Env} (he : EnvOK env) {N r : Nat} (hN : 0 < N) {big : 
           rw [dDotPt, withMeta_ok _ _ _ hm', hzip]
         have htermsD : terms.map (fun x => x.1) = rest.map (fun (ap : DCt × Col) => fun t => dMulPtInto env N big t ap.1 pt ap.2) := by
           simp [terms, List.map_map, Function.comp_def]
-        set top : ℚ := 2 ^ β0 / 2 ^ (env.base2k * dst.g.size) with htop
         have hu0 : ulp d0 ≤ top := by
           unfold ulp ulpG
           rw [hok0.bk, hsz0]
           apply div_le_div_of_nonneg_right _ (by positivity)
           exact pow_le_pow_right₀ (by norm_num) hβd0
         have htop0 : 0 ≤ top := by positivity
-        have hsumE : ∀ s, (terms.map (fun x => (x.2.2.2 s + sn r s) * (2 ^ β0 / 2 ^ (env.base2k * d0.g.size)))).sum
-            = rest.length * ((sn r s + sn r s) * top) := by
-          intro s
+        refine ⟨c', by rw [hmodel, ← htermsD]; exact e2, hctf, hokf, fun s t ht => ?_⟩
+        have hsumE : (terms.map (fun x => x.2.2.2 s + sn r s * (2 ^ β0 / 2 ^ (env.base2k * d0.g.size)))).sum
+            = rest.length * (sn r s * top + sn r s * top) := by
           rw [hsz0]
           simp only [terms, List.map_map, Function.comp_def, List.map_const', List.sum_replicate, nsmul_eq_mul, htop]
-        have hsumV : ∀ s t, (terms.map (fun x => x.2.2.1 s t)).sum = (rest.map (fun ap => dotPtTerm env N pt s ap t)).sum := by
-          intro s t
+        have hsumV : (terms.map (fun x => x.2.2.1 s t)).sum = (rest.map (fun ap => dotPtTerm env N pt s ap t)).sum := by
           simp only [terms, List.map_map, Function.comp_def]
-        by_cases hre : rest = []
-        · subst hre
-          have hmeta' : d0.ct = m := by
-            have := hmeta
-            simp only [terms, List.map_nil, List.foldl_nil] at this
-            injection this
-          have hmeta := hmeta'
-          refine ⟨d0, ?_, hmeta, hok0, fun s t ht => ?_⟩
-          · rw [hmodel]; simp only [dAccumulate, List.map_nil, List.isEmpty_nil, if_true]; exact e0
-          · have := (hv0 s t ht).mono (show sn r s * ulp d0 ≤ 2 * ((([] : List (DCt × Col)).length + 1 : Nat) : ℚ) * (sn r s * top) by
-              have h1 : sn r s * ulp d0 ≤ sn r s * top := mul_le_mul_of_nonneg_left hu0 (hσ s)
-              have h2 : 0 ≤ sn r s * top := mul_nonneg (hσ s) htop0
-              simp only [List.length_nil]; push_cast; linarith)
-            simpa [dotPtTerm] using this
-        · obtain ⟨g', e3, hg, sz, hvn⟩ := normalize_assign_stepH he.lo he.hi (by positivity) (by rw [hlen]; linarith) hgb dfin.md.logBudget
-          refine ⟨⟨g', dfin.md⟩, ?_, ?_, hg, fun s t ht => ?_⟩
-          · rw [hmodel]
-            have hne : (rest.map (fun (ap : DCt × Col) => fun t => dMulPtInto env N big t ap.1 pt ap.2)).isEmpty = false := by
-              cases rest with
-              | nil => exact absurd rfl hre
-              | cons _ _ => rfl
-            have hfold : accFold env N (dMulPtInto env N big dst a0 pt p0)
-                (rest.map (fun (ap : DCt × Col) => fun t => dMulPtInto env N big t ap.1 pt ap.2)) = .ok dfin := by
-              rw [e0, ← htermsD]; exact e2
-            show (if (rest.map (fun (ap : DCt × Col) => fun t => dMulPtInto env N big t ap.1 pt ap.2)).isEmpty then _
-              else Core.Ops.bind (accFold env N (dMulPtInto env N big dst a0 pt p0)
-                (rest.map (fun (ap : DCt × Col) => fun t => dMulPtInto env N big t ap.1 pt ap.2)))
-                  (fun d => Core.Ops.bind (glweNormalizeAssign N d.g) fun g' => .ok (⟨g', d.md⟩ : DCt))) = _
-            rw [hne, hfold]
-            simp only [Bool.false_eq_true, if_false, Core.Ops.bind, e3]
-          · rw [← hctf]; simp only [DCt.ct, sz]
-          · have a1 := hvn s t ht
-            have a2 := hv s t ht
-            have a3 := hv0 s t ht
-            have a2' : Near (decG s dfin.g dfin.md.logBudget t) (decC s d0 t + (rest.map (fun ap => dotPtTerm env N pt s ap t)).sum)
-                (2 ^ dfin.md.logBudget) (rest.length * ((sn r s + sn r s) * top)) := by
-              have := a2
-              rw [hsumE s, hsumV s t] at this
-              simpa [decC, wrap] using this
-            have a3' := (a3.scale (dvd_one (β := d0.md.logBudget) (β' := dfin.md.logBudget) hbud)).add
-              (Near.refl ((rest.map (fun ap => dotPtTerm env N pt s ap t)).sum) (2 ^ dfin.md.logBudget))
-            simp only [one_mul, abs_one, wrap] at a3'
-            have := ((a1.trans a2').trans a3').mono (show (0 : ℚ) + rest.length * ((sn r s + sn r s) * top) + (sn r s * ulp d0 + 0)
-                ≤ 2 * (((a0, p0) :: rest).length : ℚ) * (sn r s * top) by
-              have h1 : sn r s * ulp d0 ≤ sn r s * top := mul_le_mul_of_nonneg_left hu0 (hσ s)
-              have h2 : 0 ≤ sn r s * top := mul_nonneg (hσ s) htop0
-              simp only [List.length_cons]; push_cast; nlinarith)
-            simp only [List.map_cons, List.sum_cons]
-            simpa [decC, wrap, dotPtTerm] using this
+        have a2 := hv s trivial t ht
+        rw [hsumE, hsumV] at a2
+        have a3 := ((hv0 s t ht).scale (dvd_one (β := d0.md.logBudget) (β' := c'.md.logBudget) hbud)).add
+          (Near.refl ((rest.map (fun ap => dotPtTerm env N pt s ap t)).sum) (2 ^ c'.md.logBudget))
+        simp only [one_mul, abs_one] at a3
+        have := (a2.trans a3).mono (show (rest.length : ℚ) * (sn r s * top + sn r s * top) + (sn r s * ulp d0 + 0)
+            ≤ 2 * (((a0, p0) :: rest).length : ℚ) * (sn r s * top) by
+          have h1 : sn r s * ulp d0 ≤ sn r s * top := mul_le_mul_of_nonneg_left hu0 (hσ s)
+          have h2 : 0 ≤ sn r s * top := mul_nonneg (hσ s) htop0
+          simp only [List.length_cons]; push_cast; nlinarith)
+        simp only [List.map_cons, List.sum_cons]
+        simpa [decC, wrap, dotPtTerm] using this
       | err e x => simp only [Res.bind, h0] at hal; cases hal
       | panic p => simp only [Res.bind, h0] at hal; cases hal
 
